@@ -249,6 +249,48 @@ def _dead_shift_rules(ck):
                       "high part it is meant to extract is lost" % (norm(n)[:60], b))
 
 
+_R3_FIXTURE = """
+def index_first(data1, data2, n):
+    i = 0
+    while data1[i] == data2[i] and i < n:
+        i += 1
+    return i
+
+def bound_first(data1, data2, n):
+    i = 0
+    while i < n and data1[i] == data2[i]:
+        i += 1
+    return i
+"""
+
+
+def _r3_while(w):
+    """(is an indexed-search loop, bound tested before the first indexing)"""
+    subs = [s for s in walk_local(w.test) if isinstance(s, ast.Subscript) and isinstance(s.slice, ast.Name)]
+    if not subs:
+        return False, True
+    idx = subs[0].slice.id
+    bound_in_test = any(isinstance(cmp_, ast.Compare) and idx in [x.id for x in walk_local(cmp_) if isinstance(x, ast.Name)]
+                        and not any(isinstance(s, ast.Subscript) for s in walk_local(cmp_)) for cmp_ in walk_local(w.test))
+    if bound_in_test:
+        first = w.test.values[0] if isinstance(w.test, ast.BoolOp) else w.test
+        return True, not any(isinstance(s, ast.Subscript) for s in walk_local(first))
+    return True, False
+
+
+def _r3_fixture(ck):
+    """R3 may have no instance left on a tree where the search loops were rewritten without an index (zip): the rule is kept
+    honest by a built-in positive and negative example instead of an instance floor."""
+    fx = ast.parse(_R3_FIXTURE)
+    got = {}
+    for f in fx.body:
+        for w in [n for n in ast.walk(f) if isinstance(n, ast.While)]:
+            got[f.name] = _r3_while(w)
+    if got != {"index_first": (True, False), "bound_first": (True, True)}:
+        raise AnalysisError("R3 self-check on the built-in fixture failed: %r" % (got,))
+    ck.ob("R3", "fixture:index-before-bound-detected", True, "rules/c47.py:_R3_FIXTURE", "")
+
+
 def run(ck):
     _dead_shift_rules(ck)
     ck.rule("R4", "a slice bound `args.N - k` is reached only where args.N >= k", floor=4)
@@ -256,6 +298,7 @@ def run(ck):
     ck.rule("R1", "the two halves of a 64-bit argument enter a sum with the same sign; results are returned low then high", floor=3)
     ck.rule("R2", "a find/rfind result is tested against -1 before it is used in arithmetic", floor=3)
     ck.rule("R3", "a counter is compared with the length before it first indexes the buffer", floor=1)
+    _r3_fixture(ck)
 
     for rel in FILES:
         if not ck.repo.exists(rel):
